@@ -25,6 +25,23 @@ func VerifDir() string {
 	return "/verif"
 }
 
+// OutDir is where evidence/ and replays/ are written: VERIF_OUT if set (runs
+// against a scratch copy of the repository), else VerifDir().
+func OutDir() string {
+	if d := os.Getenv("VERIF_OUT"); d != "" {
+		return d
+	}
+	return VerifDir()
+}
+
+// RepoDir is the repository the check was built against (/repo unless VERIF_REPO redirected it).
+func RepoDir() string {
+	if d := os.Getenv("VERIF_REPO_DIR"); d != "" {
+		return d
+	}
+	return "/repo"
+}
+
 // Finding is one entry of known_findings.json.
 type Finding struct {
 	Property string `json:"property"`
@@ -172,7 +189,7 @@ func (r *Run) Violation(key, what string, replay any) {
 		return
 	}
 	r.violOrder = append(r.violOrder, key)
-	dir := filepath.Join(VerifDir(), "replays", r.ID)
+	dir := filepath.Join(OutDir(), "replays", r.ID)
 	_ = os.MkdirAll(dir, 0o755)
 	name := sanitize(key)
 	if len(name) > 80 {
@@ -251,7 +268,7 @@ func (r *Run) Finish(rule string, exhaustive bool) {
 	}
 	r.mu.Unlock()
 	b, _ := json.MarshalIndent(e, "", " ")
-	dir := filepath.Join(VerifDir(), "evidence")
+	dir := filepath.Join(OutDir(), "evidence")
 	_ = os.MkdirAll(dir, 0o755)
 	if err := os.WriteFile(filepath.Join(dir, r.ID+".json"), append(b, '\n'), 0o644); err != nil {
 		fmt.Fprintln(os.Stderr, "evidence:", err)
